@@ -27,7 +27,7 @@ def decoder_roles(rep, rule, c, subject_text):
     loops = [L for L in c.t.loops.values() if L.kind == 'gen' and
              c.norm(L.iter) == c.parse("self.bus.memory_map.window_patterns()")]
     if len(loops) != 1:
-        rep.bad(rule, site, "loop over self.bus.memory_map.window_patterns()",
+        rep.unk(rule, site, "loop over self.bus.memory_map.window_patterns()",
                 f"found {len(loops)} such loops: the decoder must decode with the patterns of the map it publishes")
         return None
     L = loops[0]
@@ -43,7 +43,7 @@ def decoder_roles(rep, rule, c, subject_text):
             if x[0] == 'sub' and x[2] == r.map:
                 subs.add(x)
     if len(subs) != 1:
-        rep.bad(rule, site, "registry lookup by the window's map", f"found {len(subs)} distinct lookups keyed by position 0 of the "
+        rep.unk(rule, site, "registry lookup by the window's map", f"found {len(subs)} distinct lookups keyed by position 0 of the "
                 "window_patterns() tuple")
         return None
     r.sub = next(iter(subs))
@@ -51,7 +51,7 @@ def decoder_roles(rep, rule, c, subject_text):
     # the Switch
     sids = [sid for sid, s in c.t.switches.items() if c.norm(s) == c.parse(subject_text)]
     if len(sids) != 1:
-        rep.bad(rule, site, f"Switch({subject_text})", f"found {len(sids)} Switch statements on the bus address")
+        rep.unk(rule, site, f"Switch({subject_text})", f"found {len(sids)} Switch statements on the bus address")
         return None
     r.sid = sids[0]
     # the Case pattern(s) used in that Switch inside the loop
@@ -66,7 +66,7 @@ def decoder_roles(rep, rule, c, subject_text):
                 if fr[0] == 'case' and fr[1] == r.sid:
                     pats.add(tuple(c.norm(p) for p in fr[2]))
     if len(pats) != 1 or len(next(iter(pats))) != 1:
-        rep.bad(rule, site, "Case per window", f"expected one Case pattern per window, found {sorted(ir.show(p[0]) for p in pats if p)}")
+        rep.unk(rule, site, "Case per window", f"expected one Case pattern per window, found {sorted(ir.show(p[0]) for p in pats if p)}")
         return None
     r.case_pat = next(iter(pats))[0]
     r.case = ('formula', c.eng.frame_formula(('case', r.sid, (r.case_pat,), 0)))
@@ -191,3 +191,92 @@ def trimmed_pattern(rep, rule, c, r):
         rep.unk(rule, site, "Case pattern trimmed by the granularity bits", f"unrecognised trimming {ir.show(P)}")
     else:
         rep.bad(rule, site, "Case pattern is the window's own pattern", f"Case uses {ir.show(P)}")
+
+
+# ---- shadow-register address hash: sibling agreement in Z/2**k -----------------------------------------
+def _modR(e, R, M):
+    """Linear form {term: coef} (+ const under key None) of e modulo R, where R is a power of two and M == R - 1.
+    Returns None when the expression cannot be reduced (then the rule is undecided)."""
+    if e == R:
+        return {}
+    if e[0] == 'const' and isinstance(e[1], int):
+        return {None: e[1]} if e[1] else {}
+    if e[0] == 'lin':
+        out = {None: e[1]} if e[1] else {}
+        for t, c in e[2]:
+            sub = _modR(t, R, M)
+            if sub is None:
+                return None
+            for k, v in sub.items():
+                out[k] = out.get(k, 0) + c * v
+        return {k: v for k, v in out.items() if v}
+    if e[0] == 'bin' and e[1] == '%':
+        if e[3] == R:
+            return _modR(e[2], R, M)
+        return None
+    if e[0] == 'nary' and e[1] == '&':
+        ops = list(e[2])
+        if any(o == ('un', '~', M) for o in ops):
+            return {}                                   # a multiple of R
+        if M in ops:
+            rest = [o for o in ops if o != M]
+            if len(rest) == 1:
+                return _modR(rest[0], R, M)
+            return {('nary', '&', tuple(rest)): 1}
+        return {e: 1}
+    if e[0] == 'nary' and e[1] == '|':
+        parts = [_modR(o, R, M) for o in e[2]]
+        if any(p is None for p in parts):
+            return None
+        nz = [p for p in parts if p]
+        if len(nz) > 1:
+            return None
+        return nz[0] if nz else {}
+    return {e: 1}
+
+
+def shadow_hash(rep, idx, rule):
+    """decode_address and encode_offset of the multiplexer's shadow register must be mutually inverse on the low
+    bits: decode(addr) == addr (mod R) and encode(o) == start + ((o - start) mod R), R = 2**ceil_log2(size), the same
+    R in both.  Decided by reduction modulo R on the extracted expressions (no numbers are run)."""
+    from .common import get_fn
+    dec = get_fn(idx, "Multiplexer._Shadow.decode_address")
+    enc = get_fn(idx, "Multiplexer._Shadow.encode_offset")
+    rep.analysed(dec.fi.site, enc.fi.site)
+    R = dec.parse("2 ** ceil_log2(reg_range.stop - reg_range.start)")
+    M = dec.norm(('bin', '-', R, ('const', 1)))
+    d = [dec.norm(v) for v, gen, ln in dec.t.returns]
+    e = [enc.norm(v) for v, gen, ln in enc.t.returns]
+    if len(d) != 1 or len(e) != 1:
+        rep.unk(rule, dec.fi.site, "shadow hash", "decode_address / encode_offset do not have a single return")
+        return
+    d, e = d[0], e[0]
+    uses_R_d = ir.mentions(d, R)
+    uses_R_e = ir.mentions(e, R)
+    rep.check(uses_R_d and uses_R_e, rule, enc.fi.site,
+              "decode_address and encode_offset use the same power-of-two register size 2**ceil_log2(stop - start)",
+              f"decode uses it: {uses_R_d}; encode uses it: {uses_R_e} -- encode returns {ir.show(e)[:120]}")
+    md = _modR(d, R, M)
+    if md is None:
+        rep.unk(rule, dec.fi.site, "decode_address(addr) == addr (mod register size)", f"cannot reduce {ir.show(d)[:120]}")
+    else:
+        rep.check(md == {('name', 'addr'): 1}, rule, dec.fi.site, "decode_address(addr) == addr (mod register size)",
+                  f"modulo the register size the offset reduces to {_lin_show(md)}; the low bits of the chunk offset must be the low bits of the bus address")
+    me = _modR(e, R, M)
+    if me is None:
+        rep.unk(rule, enc.fi.site, "encode_offset(o) == o (mod register size)", f"cannot reduce {ir.show(e)[:120]}")
+    else:
+        rep.check(me == {('name', 'offset'): 1}, rule, enc.fi.site, "encode_offset(o) == o (mod register size)",
+                  f"modulo the register size the address reduces to {_lin_show(me)}: some chunk of the register is given an address that "
+                  "decode_address does not map back to it")
+    # encode lands inside [start, start + R): start + (<anything> % R)
+    shape = e[0] == 'lin' and e[1] == 0 and len(e[2]) == 2 and any(t == enc.parse("reg_range.start") and k == 1 for t, k in e[2]) and \
+        any(t[0] == 'bin' and t[1] == '%' and t[3] == R and k == 1 for t, k in e[2])
+    rep.check(shape, rule, enc.fi.site, "encode_offset(o) lies in [start, start + register size)", f"returns {ir.show(e)[:120]}")
+
+
+def _lin_show(d):
+    parts = []
+    for k, v in d.items():
+        parts.append((f"{v}*" if v != 1 else "") + (ir.show(k) if k is not None else "1"))
+    return " + ".join(parts) or "0"
